@@ -171,3 +171,30 @@ pub fn seeds<F: Fld>() -> Vec<F::E> {
     }
     out
 }
+
+/// A second internal representation of the same value, reached through short public-operation
+/// paths that are identities on values (None for fields whose representation is always canonical).
+/// Only f62 (lazy reduction in [0, 2M)) has such twins on the current tree; the search is generic so
+/// that a representation change elsewhere is picked up too.
+pub fn twin<E: FieldElement>(e: E) -> Option<E> {
+    let raw = |x: E| E::elements_as_bytes(&[x]).to_vec();
+    let one = E::ONE;
+    let two = one + one;
+    let z = one + (-one);
+    let cands = [
+        (e + one) - one,
+        (e - one) + one,
+        -(-e),
+        e + z,
+        e - z,
+        z + e,
+        (e + two) - two,
+        (e - two) + two,
+        (e.double()) - e,
+        e * one,
+        (e * two) - e,
+        -((-e) + z),
+    ];
+    let r0 = raw(e);
+    cands.into_iter().find(|c| *c == e && raw(*c) != r0)
+}
